@@ -61,6 +61,7 @@ type WScn struct {
 	Reissues     []time.Duration // a 0x8003 (re-request) frame from the terminal at these times
 	ReissueBurst int             // this many 0x8003 frames in one write at the start (reissuePackChan holds 3)
 	Stall        bool            // first packet of a 2-packet transfer at the start, a heartbeat 5.1 s later: generated re-request
+	EmptyKey     bool            // the terminal's KeyFunc result is "": calls address the key ""
 	Flood        int             // this many heartbeats in ONE socket write at the start of the recording (more than msgChan holds)
 	CloseReplies int             // close after this many 0x8001 replies were received (0 = no)
 	CloseFrames  int             // close after this many command frames were received and handled (0 = no)
@@ -104,6 +105,24 @@ var respTypeOf = map[uint16]uint16{
 }
 
 var WCmds = []uint16{0x8103, 0x8104, 0x8801, 0x9101, 0x9102, 0x9205, 0x9206}
+
+// WCmdsNoHandler: platform commands that createDefaultHandle does NOT register (no entry in the connection's
+// handler table): the completion messages the library builds for them (timeout, write failure, ErrNotExistKey at
+// the disconnect) carry a nil Handler.  Answered by a 0x0001 like any other command.
+var WCmdsNoHandler = []uint16{0x8300, 0x8105, 0x8201, 0x8202, 0x8500, 0x8600}
+
+// EmptyKeyPrefix: the child servers run with a KeyFunc that maps phones with this prefix to the key "" (and every
+// other phone to itself, as the default does).
+const EmptyKeyPrefix = "166"
+
+func ChildKeyFunc(phone string) (string, bool) {
+	if strings.HasPrefix(phone, EmptyKeyPrefix) {
+		return "", true
+	}
+	return phone, true
+}
+
+var emptyKeyMu sync.Mutex // one connection at a time can own the key ""
 
 func locBody() []byte { // 28-byte basic location information, 2024-10-01 12:00:00
 	b := make([]byte, 28)
@@ -470,6 +489,15 @@ func (r *wrun) handle(f PFrame) {
 // the direct oracle.
 func RunW(s *Srv, sc *WScn) *WHist {
 	h := &WHist{Join: "o", Kinds: map[string]int{}, NCalls: len(sc.Calls)}
+	key := sc.Phone
+	if sc.EmptyKey {
+		key = ""
+		emptyKeyMu.Lock()
+		defer func() {
+			time.Sleep(30 * time.Millisecond) // let the server finish the teardown before the next owner of "" connects
+			emptyKeyMu.Unlock()
+		}()
+	}
 	t, err := DialTerm(s.Addr, sc.Phone)
 	if err != nil {
 		h.Viol = append(h.Viol, WViol{Sig: "dial", What: "cannot connect to the server", Observed: err.Error(), Required: "an accepting server"})
@@ -660,7 +688,7 @@ func RunW(s *Srv, sc *WScn) *WHist {
 				time.Sleep(c.Start)
 			}
 			inv := r.us()
-			ch := s.Call(sc.Phone, c.Cmd, c.Body, c.Timeout)
+			ch := s.Call(key, c.Cmd, c.Body, c.Timeout)
 			res := Await(ch, deadline-time.Since(r.t0)+50*time.Millisecond)
 			ret := r.us()
 			r.mu.Lock()
@@ -933,7 +961,7 @@ func (r *wrun) check(h *WHist) {
 
 // ---------------------------------------------------------------- scenario generators
 
-var WKinds = []string{"garbage-close", "reissue", "reissue-close", "stall", "stall-close", "frag", "default0", "flood-close", "burst", "order", "late", "dup", "unknown", "bad", "never", "mixed", "attr", "notmo", "prejoin", "wrap",
+var WKinds = []string{"emptykey-close", "nohandler", "garbage-close", "reissue", "reissue-close", "stall", "stall-close", "frag", "default0", "flood-close", "burst", "order", "late", "dup", "unknown", "bad", "never", "mixed", "attr", "notmo", "prejoin", "wrap",
 	"close-idle", "close-queued", "close-outstanding", "close-afterresp", "close-timer", "close-early", "rst-outstanding"}
 
 func ms(n int) time.Duration { return time.Duration(n) * time.Millisecond }
@@ -951,6 +979,9 @@ func GenW(kind string, seed int64) *WScn {
 	k := 1 + rng.Intn(4)
 	mk := func(i int, to time.Duration) *WCall {
 		cmd := WCmds[rng.Intn(len(WCmds))]
+		if rng.Intn(5) == 0 { // a command id without an entry in the handler table
+			cmd = WCmdsNoHandler[rng.Intn(len(WCmdsNoHandler))]
+		}
 		return &WCall{Cmd: cmd, Body: []byte{0xC0 | byte(i), byte(seed), byte(rng.Intn(256))}, Timeout: to, Start: ms(rng.Intn(8))}
 	}
 	tos := []int{5, 20, 60, 90, 150, 250}
@@ -1157,6 +1188,33 @@ func GenW(kind string, seed int64) *WScn {
 		}
 		sc.CloseTime = ms(10 + rng.Intn(40))
 		sc.RST = kind == "rst-outstanding"
+	case "nohandler": // only commands without a handler entry: never answered (timeout), answered, outstanding at the disconnect
+		k = 1 + rng.Intn(4)
+		for i := 0; i < k; i++ {
+			c := mk(i, to())
+			c.Cmd = WCmdsNoHandler[rng.Intn(len(WCmdsNoHandler))]
+			sc.Calls = append(sc.Calls, c)
+			sc.Acts = append(sc.Acts, WAct{Kind: []string{"never", "never", "now", "delay"}[rng.Intn(4)], Delay: ms(rng.Intn(30))})
+		}
+		beats(rng.Intn(2), 30)
+		if rng.Intn(2) == 0 {
+			sc.CloseTime = ms(10 + rng.Intn(60))
+			sc.RST = rng.Intn(2) == 0
+		}
+	case "emptykey-close": // a terminal whose key is "": commands to "", disconnect, then one more command to "" (ErrNotExistKey)
+		sc.EmptyKey = true
+		sc.Phone = fmt.Sprintf("%s%08d", EmptyKeyPrefix, seed%100000000)
+		k = rng.Intn(3)
+		for i := 0; i < k; i++ {
+			sc.Calls = append(sc.Calls, mk(i, to()))
+			sc.Acts = append(sc.Acts, WAct{Kind: []string{"now", "never"}[rng.Intn(2)]})
+		}
+		sc.CloseTime = ms(5 + rng.Intn(30))
+		sc.RST = rng.Intn(2) == 0
+		after := mk(k, ms(150))
+		after.Start = sc.CloseTime + ms(20+rng.Intn(40))
+		sc.Calls = append(sc.Calls, after)
+		sc.Acts = append(sc.Acts, WAct{Kind: "never"})
 	case "garbage-close": // not a close: a frame with a bad check code from a live peer; the server tears the connection down
 		for i := 0; i < k; i++ {
 			sc.Calls = append(sc.Calls, mk(i, to()))
